@@ -19,6 +19,7 @@ struct FlatLog {
     uint64_t oob = 0;      // lookups with index >= size
     uint64_t last = 0;     // last index asked for
     uint64_t first_oob = 0;
+    uint64_t ring[64] = {};  // the most recent indices, ring[(queries - 1) % 64] is the last one
 };
 
 // Flat storage backend of the same kind as covfie::backend::array: size_t index in, reference
@@ -91,6 +92,7 @@ struct flat {
         }
         typename covariant_output_t::vector_t at(typename contravariant_input_t::vector_t i) const
         {
+            m_log->ring[m_log->queries % 64] = i;
             ++m_log->queries;
             m_log->last = i;
             if (i >= m_log->size) {
